@@ -268,6 +268,13 @@ def _run_richardson_sequence(spec):
     rec = util.Rec(sig="richseq|%s|%s" % (spec["method"], spec["order"]))
     tau = TAU[spec["dtype"]]
     factories = [(n, util.richardson(info["cls"], n)) for n in seq]     # all generated first, then probed
+    # the wrappers must also be constructible with the library's default tolerances (no rtol/atol given)
+    try:
+        for n, fac in factories[:2]:
+            fac((2,), dtype=np.dtype("float64"))
+        rec.bump("richardson_default_tolerance_constructions", 2)
+    except Exception as e:
+        rec.violate("richardson_construction", type(e).__name__, {"method": spec["method"], "family": info["family"]}, err=repr(e)[:200])
     for n, factory in factories:
         g = p if n == 2 else p + 1
         worst, acc = _probe_grade(factory, g, spec["pseed"] + n, spec["dtype"], 1, sep, False, rec, "richseq")
